@@ -304,10 +304,25 @@ def add_generated_programs(plan, rnd, nprogs, nhist, prop):
     accepted = [a for a in accepted if any(st["k"] == "then" for st in a)]
     chosen = rnd.sample(accepted, min(nprogs * 2, len(accepted)))
     programs = {}
-    for i, prog in enumerate(chosen):
+    for i, prog in enumerate(chosen[:nprogs]):
         name = "lp" + "".join(chr(ord("a") + (i // 26 ** k) % 26) for k in (2, 1, 0))
         programs[name] = c10.render(prog)
-    done, skipped = theories.prepare_generated(dict(list(programs.items())[:nprogs]))
+    # structured rules (branch / match) that the compiler accepts: the reference stages of tools/eql.py
+    # follow the control-flow graph, the generated code comes from flatten.rs
+    work = vlib.workdir(f"{prop.lower()}-sprog")
+    k = 0
+    for j, sp in enumerate(c10.structured_programs(rnd, nprogs * 12)):
+        if k >= nprogs:
+            break
+        if not any(st.get("k") == "then" for it in sp for st in ([it] if it["k"] in ("if", "then") else
+                                                                  [x for b in it.get("bs", []) for x in b] + [x for c in it.get("cs", []) for x in c["blk"]])):
+            continue
+        text, _ = c10.render_structured(sp)
+        rc, _cls, _ln, _to = c10.run_cli(text, work, j)
+        if rc == 0:
+            programs["sp" + "".join(chr(ord("a") + (k // 26 ** q) % 26) for q in (2, 1, 0))] = text
+            k += 1
+    done, skipped = theories.prepare_generated(programs)
     for name, (sig, stages) in done.items():
         mpath = os.path.join(theories.GENP_OUT, name + ".eql.rs")
         plan.external[name] = (sig, stages, mpath, "gen-driver")
